@@ -296,39 +296,75 @@ def check_boltzmann(rep):
 def check_linearop(rep):
     sc = Script(rep, "table_linearop.pl")
     a_, b_ = S("$a"), S("$b")
+    cs = [e for e in sc.fo.events if e["kind"] == "call"]
+    rd = [e for e in cs if e["callee"] == "readin_table"]
+    rde = [e for e in cs if e["callee"] == "readin_table_err"]
+    if len(rd) != 1 or len(rde) != 1 or len(rd[0]["arg_names"]) < 4 or len(rde[0]["arg_names"]) < 5 or rd[0]["arg_names"][1:3] != rde[0]["arg_names"][1:3] \
+            or None in rde[0]["arg_names"][1:5]:
+        raise AnalysisBroken("table_linearop.pl: readin_table / readin_table_err calls on the same grid and value arrays not found")
+    X, Y, E, FLG = [x.lstrip("@") for x in rde[0]["arg_names"][1:5]]
     got = {}
-    for arr, want in (("val", lambda e: a_ * e + b_), ("r", lambda e: a_ * e + b_), ("errors", lambda e: a_ * e)):
+    for arr, want in ((Y, lambda e: a_ * e + b_), (X, lambda e: a_ * e + b_), (E, lambda e: a_ * e)):
         st = sc.stores(arr)
         ok = len(st) == 1 and not isinstance(st[0]["value"], tuple) and is_zero(st[0]["value"] - want(el(arr, st[0]["idx"][0])))
         got[arr] = (ok, [str(e["value"]) for e in st])
     rep.check(all(v[0] for v in got.values()), "R19.1", "linearop|formula", "y' = a*y + b, x' = a*x + b, err' = a*err", "table_linearop.pl computes %s" % {k: v[1] for k, v in got.items()}, sc.loc, sample=True)
-    passthrough(rep, sc, "r", "flag")
+    passthrough(rep, sc, X, FLG)
 
 
 # ------------------------------------------------------------------------------------------------ potential_shift.pl
+def roles(sc):
+    """array names by role, read off the table I/O calls: readin_table(file, X, Y, FLAG), saveto_table(file, X, Y, FLAG, comments)"""
+    cs = [e for e in sc.fo.events if e["kind"] == "call"]
+    rd = [e for e in cs if e["callee"] == "readin_table"]
+    sv = [e for e in cs if e["callee"] == "saveto_table"]
+    if len(rd) != 1 or len(sv) != 1 or len(rd[0]["arg_names"]) < 4 or len(sv[0]["arg_names"]) < 4 or None in rd[0]["arg_names"][1:4] or None in sv[0]["arg_names"][1:4]:
+        raise AnalysisBroken("%s: expected one readin_table and one saveto_table call with array arguments" % sc.name)
+    r_, s_ = rd[0]["arg_names"], sv[0]["arg_names"]
+    return {"x": r_[1].lstrip("@"), "y": r_[2].lstrip("@"), "flag": r_[3].lstrip("@"), "xout": s_[1].lstrip("@"), "yout": s_[2].lstrip("@"), "flagout": s_[3].lstrip("@")}
+
+
+def is_last(v, ro):
+    return str(getattr(v, "func", "")) == "last" and str(v.args[0]).lstrip("@") in (ro["x"], ro["y"], ro["flag"])
+
+
 def check_shift(rep):
     sc = Script(rep, "potential_shift.pl")
-    sh = sc.stores("dpot")
+    ro = roles(sc)
+    Y, FL = ro["yout"], ro["flag"]
+    sh = sc.stores(Y)
     ok, zero_used, got = False, None, [(str(e["value"]), e.get("op")) for e in sh]
-    if len(sh) == 1:
+    if len(sh) == 1 and ro["y"] == Y:
         e = sh[0]
         i = e["idx"][0]
         inner = PF.inner(e)
         uncond = not inner["guards"] and not inner["not"]
-        z = sp.expand(el("dpot", i) - e["value"])
-        ok = uncond and not z.has(el("dpot", i))
+        z = sp.expand(el(Y, i) - e["value"])
+        lid_ = sc.loop_of(e)
+        b_ = sc.bounds(lid_) if lid_ else None
+        ok = uncond and not z.has(el(Y, i)) and b_ is not None and b_[0] == 0 and is_last(b_[1], ro)
         zero_used = z
     rep.check(ok, "R19.1", "shift|formula", "y[i] -= zero for every point", "potential_shift.pl shifts with %s" % got, sc.loc, sample=True)
     # the shift: last point for non-bonded tables, otherwise the minimum over the points flagged i (the first one initialises it)
-    loops = [l for l in sc.fo.loops if "$zero" in (l.get("step") or {}) and l["step"]["$zero"] is not None and l["kind"] != "enteriter" or
-             (l["kind"] == "enteriter" and "$zero" in (l.get("step") or {}))]
+    oknb, zb = False, None
+    if zero_used is not None:
+        def orc2(lf):
+            if isinstance(lf, tuple) and len(lf) == 3 and lf[0] in ("==", "!=") and "$type" in (str(lf[1]), str(lf[2])) and '"non-bonded"' in (str(lf[1]), str(lf[2])):
+                return ("NB", lf[0] == "==")
+            return None
+        znb = sc.resolve(zero_used, {"NB": True}, orc2)
+        zb = sc.resolve(zero_used, {"NB": False}, orc2)
+        oknb = str(getattr(znb, "func", "")) == "elem" and str(znb.args[0]) == "@" + Y and is_last(znb.args[1], ro) and isinstance(zb, sp.Symbol)
+    rep.check(oknb, "R19.1", "shift|non-bonded", "non-bonded: shift by the last point; bonded: by the minimum", "the shift is %s" % zero_used, sc.loc)
+    loops = [(l, nm) for l in sc.fo.loops for nm, sy in (l.get("after") or {}).items() if zb is not None and sy == zb]
     okz, why = False, "the loop that determines the bonded shift was not found"
     if zero_used is not None and len(loops) == 1:
-        l = loops[0]
+        l, var = loops[0]
         lid = l["id"]
-        zs = S("$zero@%s" % lid)
-        isym = l.get("sym") or [sy for nm, sy in l.get("syms", {}).items() if nm != "$zero"][0]
-        dp, fl = el("dpot", isym), el("flag", isym)
+        zs = S("%s@%s" % (var, lid))
+        b = sc.bounds(lid)
+        isym = l.get("sym") if l["kind"] == "enteriter" else next((sy for nm, sy in l.get("syms", {}).items() if nm != var and b is not None), None)
+        dp, fl = el(Y, isym), el(FL, isym)
 
         def orc(lf):
             if isinstance(lf, tuple) and lf and lf[0] == "match" and lf[1] == fl and "i" in str(lf[2]):
@@ -342,7 +378,7 @@ def check_shift(rep):
         okz, why = True, ""
         for f_, d_, t_ in itertools.product((True, False), repeat=3):
             atoms = {"F": f_, "DEF": d_, "LT": t_}
-            nv = sc.resolve(l["step"]["$zero"], atoms, orc)
+            nv = sc.resolve(l["step"][var], atoms, orc)
             if nv is None or (hasattr(nv, "args") and ites(nv)):
                 okz, why = False, "the new minimum is undecided for flag-i=%s, defined=%s, smaller=%s (a truthiness test instead of defined() loses a minimum that is exactly 0)" % (f_, d_, t_)
                 break
@@ -350,79 +386,81 @@ def check_shift(rep):
             if nv != want:
                 okz, why = False, "for flag-i=%s, zero defined=%s, y[i] < zero=%s the running minimum becomes %s, required %s" % (f_, d_, t_, nv, want)
                 break
-        init = l.get("init", {}).get("$zero")
+        init = l.get("init", {}).get(var)
         if okz and str(init) != "undef":
             okz, why = False, "the running minimum starts as %s, not undef" % init
-        b = sc.bounds(lid)
-        if okz and not (b and b[0] == 0 and str(getattr(b[1], "func", "")) == "last" and b[2] == 1):
+        if okz and not (b and b[0] == 0 and is_last(b[1], ro) and b[2] == 1):
             okz, why = False, "the minimum is searched over %s, not over all points" % ((tuple(map(str, b)),) if b else "an unrecognised range")
     rep.check(okz, "R19.1", "shift|zero", "zero = minimum over points flagged i, the first one taken while zero is still undefined",
               "potential_shift.pl: " + why, sc.loc, sample=True)
-    oknb = False
-    if zero_used is not None:
-        def orc2(lf):
-            if isinstance(lf, tuple) and len(lf) == 3 and lf[0] in ("==", "!=") and "$type" in (str(lf[1]), str(lf[2])) and '"non-bonded"' in (str(lf[1]), str(lf[2])):
-                return ("NB", lf[0] == "==")
-            return None
-        znb = sc.resolve(zero_used, {"NB": True}, orc2)
-        zb = sc.resolve(zero_used, {"NB": False}, orc2)
-        oknb = str(znb) == "elem(@dpot, last(@r))" and str(zb) == "$zero"
-    rep.check(oknb, "R19.1", "shift|non-bonded", "non-bonded: shift by the last point; bonded: by the minimum", "the shift is %s" % zero_used, sc.loc)
-    passthrough(rep, sc, "r", "flag")
+    passthrough(rep, sc, ro["x"], ro["flag"])
 
 
 # ------------------------------------------------------------------------------------------------ table_smooth.pl
 def check_smooth(rep):
     sc = Script(rep, "table_smooth.pl")
-    pc = lambda k: el("pot_cur", k)
-    loops = [l for l in sc.fo.loops if any(in_loop(e, l["id"]) for e in sc.stores("pot"))]
+    ro = roles(sc)
+    YI, YO, FL = ro["y"], ro["yout"], ro["flag"]
+    LAST = S("_LAST")
+
+    def canon(v):
+        """all arrays filled by readin_table have the same length: their last indices are one symbol"""
+        if isinstance(v, tuple):
+            return tuple(canon(x) for x in v)
+        if not isinstance(v, sp.Basic):
+            return v
+        return v.replace(lambda x: is_last(x, ro), lambda x: LAST)
+    pc = lambda k: el(YI, k)
+    loops = [l for l in sc.fo.loops if any(in_loop(e, l["id"]) for e in sc.stores(YO))]
     if len(loops) != 1:
         raise AnalysisBroken("table_smooth.pl: expected one loop over the interior points, found %d" % len(loops))
     lid = loops[0]["id"]
     isym = [sy for sy in loops[0]["syms"].values()][0] if loops[0]["kind"] != "enteriter" else loops[0]["sym"]
-    last = Fn("last")(S("@pot_cur"))
 
     def flag_oracle(idx):
-        fl = el("flag_cur", idx)
+        fl = el(FL, idx)
 
         def orc(lf):
+            lf = canon(lf)
             if isinstance(lf, tuple) and len(lf) == 3 and lf[0] in ("==", "!=") and fl in (lf[1], lf[2]) and '"i"' in (str(lf[1]), str(lf[2])):
                 return ("FI", lf[0] == "==")
             if isinstance(lf, tuple) and lf and lf[0] == "match" and lf[1] == fl and "i" in str(lf[2]):
                 return ("FI", True)
             return None
         return orc
+
+    def final_at(idx, l_, atoms, orc):
+        """value of yout[idx] after the interior loop body (l_) or after the top-level statements, in the scenario"""
+        val = None
+        for e in sc.stores(YO, l_):
+            if (l_ is None and sc.loop_of(e) is not None) or sp.simplify(canon(e["idx"][0]) - idx) != 0:
+                continue
+            if l_:
+                x = executes(PF.inner(e, l_), None, atoms, orc, sc.conds)
+            else:
+                gs = [g for g in e["guards"] if ("elem(@%s" % FL) in str(g[0])]
+                x = executes({"guards": gs, "not": []}, None, atoms, orc, sc.conds)
+            if x is None:
+                raise AnalysisBroken("%s line %s: cannot decide whether %s is written for %s" % (sc.name, e["line"], e["target"], atoms))
+            if x:
+                val = canon(sc.resolve(e["value"], atoms, orc))
+        return val
     res = {}
     for nm, idx, l_, want in (("interior", isym, lid, Q(1, 4) * pc(isym - 1) + Q(1, 2) * pc(isym) + Q(1, 4) * pc(isym + 1)),
                               ("first", sp.Integer(0), None, (2 * pc(sp.Integer(0)) + pc(sp.Integer(1))) / 3),
-                              ("last", last, None, (2 * pc(last) + pc(last - 1)) / 3)):
+                              ("last", LAST, None, (2 * pc(LAST) + pc(LAST - 1)) / 3)):
         orc = flag_oracle(idx)
-        vi = sc.final("pot", idx, l_, {"FI": True}, orc) if l_ else final_top(sc, "pot", idx, {"FI": True}, orc)
-        vo = sc.final("pot", idx, l_, {"FI": False}, orc) if l_ else final_top(sc, "pot", idx, {"FI": False}, orc)
+        vi = final_at(idx, l_, {"FI": True}, orc)
+        vo = final_at(idx, l_, {"FI": False}, orc)
         res[nm] = (vi is not None and vo is not None and is_zero(vi - want) and is_zero(vo - pc(idx)), vi, vo)
     rep.check(res["interior"][0], "R19.1", "smooth|interior", "(1/4, 1/2, 1/4) stencil for interior points flagged i, others unchanged",
               "table_smooth.pl interior point: flagged i -> %s, otherwise -> %s" % (res["interior"][1], res["interior"][2]), sc.loc, sample=True)
     rep.check(res["first"][0] and res["last"][0], "R19.1", "smooth|ends", "(2 y0 + y1)/3 at both ends when flagged i, unchanged otherwise",
               "table_smooth.pl end points: first -> %s / %s, last -> %s / %s" % (res["first"][1], res["first"][2], res["last"][1], res["last"][2]), sc.loc, sample=True)
     b = sc.bounds(lid)
-    okb = b is not None and b[0] == 1 and b[2] == 1 and sp.simplify(b[1] - (Fn("last")(S("@r_cur")) - 1)) == 0 or \
-        (b is not None and b[0] == 1 and b[2] == 1 and str(getattr(sp.simplify(b[1] + 1), "func", "")) == "last")
+    okb = b is not None and b[0] == 1 and b[2] == 1 and sp.simplify(canon(b[1]) - (LAST - 1)) == 0
     rep.check(okb, "R19.1", "smooth|unflagged-kept", "interior loop covers the points 1..last-1", "table_smooth.pl interior loop runs over %s" % ((tuple(map(str, b)),) if b else "?"), sc.loc)
-    passthrough(rep, sc, "r_cur", "flag_cur")
-
-
-def final_top(sc, arr, idx, atoms, orc):
-    val = None
-    for e in sc.stores(arr):
-        if sc.loop_of(e) is not None or sp.simplify(e["idx"][0] - idx) != 0:
-            continue
-        gs = [g for g in e["guards"] if "elem(@flag_cur" in str(g[0])]
-        x = executes({"guards": gs, "not": []}, None, atoms, orc, sc.conds)
-        if x is None:
-            raise AnalysisBroken("%s line %s: cannot decide whether %s is written" % (sc.name, e["line"], e["target"]))
-        if x:
-            val = sc.resolve(e["value"], atoms, orc)
-    return val
+    passthrough(rep, sc, ro["x"], ro["flag"])
 
 
 # ------------------------------------------------------------------------------------------------ table_integrate.pl
